@@ -553,6 +553,26 @@ fn table_cases(thorough: bool) -> Vec<TableCase> {
             }
         }
     }
+    // a subroutine without a return type has no value: using its call as a value is never
+    // accepted silently, whatever the target
+    for t in &types {
+        if t.name == "stretch" {
+            continue;
+        }
+        let ts = tt_spelling(t);
+        for (is_decl, with_param) in [(true, false), (true, true), (false, false), (false, true)] {
+            let (prelude, call) = if with_param { ("def p(int[32] n) { n = 0; }", "p(3)") } else { ("def p() { }", "p()") };
+            let stmt = if is_decl { format!("{ts} x = {call};") } else { format!("{ts} x; x = {call};") };
+            out.push(TableCase {
+                key: format!("{}:{}<-void-call{}", if is_decl { "decl" } else { "assign" }, t.name, if with_param { ":with-parameter" } else { "" }),
+                text: format!("{prelude}\n{stmt}"),
+                target: tt_type(t, false),
+                must: Some("a call of a subroutine without return type used as a value"),
+                same_type: false,
+                is_decl,
+            });
+        }
+    }
     out
 }
 
